@@ -526,6 +526,12 @@ class OpGen:
                 return _plain(valid)
 
             def an_existing_value():
+                if items and scalar_item and s.chance(0.12):
+                    e = s.choice(items)
+                    if type(e) is int:
+                        # an equal value of another type finds the element (list.index compares with ==); it is the
+                        # element found that is edited, not the value it was looked up by
+                        return ["float", repr(float(e))] if (e not in (0, 1) or s.chance(0.5)) else bool(e)
                 if items and ik == "kitem" and s.chance(0.15):
                     # same key as a stored element but not equal to it: by-value addressing is by equality
                     e = s.choice(items)
